@@ -256,3 +256,223 @@ Example C15_float_error_instance :
   exists m, mean_absolute_error FOps [0x1.999999999999ap-4; 0x1.999999999999ap-3]%float [0x1.3333333333333p-2; 0x1.999999999999ap-4]%float = Some m
             /\ FloatError.ffin m.
 Proof. eexists. split; [vm_compute; reflexivity | vm_compute; reflexivity]. Qed.
+
+(* ------------------------------------------------------------------------------------------
+   More rounding theorems (C15/ProofsFloat2.v).  Count-based metrics: the counters are machine integers
+   converted at the end, so for n < 2^53 the binary64 result is the CORRECTLY ROUNDED quotient of the
+   exact counts (one rounding); it is NaN exactly when the denominator count is 0, so "the result is
+   finite" is the only hypothesis.  For accuracy the count k is the number of positions where the
+   code's float `==` holds; it is the real-number count n_equal when the entries are finite (a NaN
+   entry never compares equal).
+   ------------------------------------------------------------------------------------------ *)
+From SC Require C15.ProofsFloat2.
+
+Theorem C15_accuracy_float_exact : forall (yt yp : list PrimFloat.float) (a : PrimFloat.float),
+  accuracy FOps yt yp = Some a -> FloatError.ffin a -> (Z.of_nat (length yt) < 2 ^ 53)%Z ->
+  let n := length yt in
+  let k := countb (fun p => PrimFloat.eqb (fst p) (snd p)) (combine yt yp) in
+  let q := (INR k / INR n)%R in
+  (0 < n)%nat /\ (k <= n)%nat /\ FloatError.FR a = FloatError.rnd64 q /\
+  (Rabs (FloatError.FR a - q) <= FloatError.u64 * q)%R /\ (0 <= FloatError.FR a <= 1)%R /\
+  (k = 0%nat -> FloatError.FR a = 0%R) /\
+  (Forall FloatError.ffin yt -> Forall FloatError.ffin yp ->
+     k = n_equal (C17.ProofsFloat.RV yt) (C17.ProofsFloat.RV yp) /\
+     accuracy ROps (C17.ProofsFloat.RV yt) (C17.ProofsFloat.RV yp) = Some q).
+Proof. exact C15.ProofsFloat2.accuracy_float_exact. Qed.
+
+(* precision / recall: a finite result means binary labels (the code panics otherwise) and a non-zero
+   denominator; the value is the correctly rounded TP/(TP+FP) resp. TP/(TP+FN) *)
+Theorem C15_precision_float_exact : forall (yt yp : list PrimFloat.float) (p : PrimFloat.float),
+  precision FOps yt yp = Some p -> FloatError.ffin p -> (Z.of_nat (length yt) < 2 ^ 53)%Z ->
+  let tp := n_tp (C17.ProofsFloat.RV yt) (C17.ProofsFloat.RV yp) in
+  let fp := n_fp (C17.ProofsFloat.RV yt) (C17.ProofsFloat.RV yp) in
+  let q := (INR tp / INR (tp + fp))%R in
+  binary (C17.ProofsFloat.RV yt) /\ binary (C17.ProofsFloat.RV yp) /\ (0 < tp + fp <= length yt)%nat /\
+  precision ROps (C17.ProofsFloat.RV yt) (C17.ProofsFloat.RV yp) = Some q /\
+  FloatError.FR p = FloatError.rnd64 q /\ (Rabs (FloatError.FR p - q) <= FloatError.u64 * q)%R /\
+  (0 <= FloatError.FR p <= 1)%R /\ (tp = 0%nat -> FloatError.FR p = 0%R).
+Proof. exact C15.ProofsFloat2.precision_float_exact. Qed.
+
+Theorem C15_recall_float_exact : forall (yt yp : list PrimFloat.float) (r : PrimFloat.float),
+  recall FOps yt yp = Some r -> FloatError.ffin r -> (Z.of_nat (length yt) < 2 ^ 53)%Z ->
+  let tp := n_tp (C17.ProofsFloat.RV yt) (C17.ProofsFloat.RV yp) in
+  let fn := n_fn (C17.ProofsFloat.RV yt) (C17.ProofsFloat.RV yp) in
+  let q := (INR tp / INR (tp + fn))%R in
+  binary (C17.ProofsFloat.RV yt) /\ binary (C17.ProofsFloat.RV yp) /\ (0 < tp + fn <= length yt)%nat /\
+  recall ROps (C17.ProofsFloat.RV yt) (C17.ProofsFloat.RV yp) = Some q /\
+  FloatError.FR r = FloatError.rnd64 q /\ (Rabs (FloatError.FR r - q) <= FloatError.u64 * q)%R /\
+  (0 <= FloatError.FR r <= 1)%R /\ (tp = 0%nat -> FloatError.FR r = 0%R).
+Proof. exact C15.ProofsFloat2.recall_float_exact. Qed.
+
+(* F-beta = (1 + b^2) (P R) / (b^2 P + R) evaluated on the two rounded quotients, b = the float beta.
+   A finite result means TP > 0 (no 0/0 guard in the code: TP = 0 gives NaN) and a finite beta; then no
+   intermediate overflowed, and when beta is 0 or at least 2^-480 in magnitude (no underflow in beta^2 and
+   beta^2 P) the relative error against the exact F-beta of the confusion counts is (1+u)^11 - 1:
+   eleven roundings in sequence, all quantities non-negative, no cancellation. *)
+Theorem C15_fbeta_float_error : forall (beta : PrimFloat.float) (yt yp : list PrimFloat.float) (f : PrimFloat.float),
+  f_beta FOps beta yt yp = Some f -> FloatError.ffin f -> (Z.of_nat (length yt) < 2 ^ 53)%Z ->
+  let b := FloatError.FR beta in
+  let tp := n_tp (C17.ProofsFloat.RV yt) (C17.ProofsFloat.RV yp) in
+  let fp := n_fp (C17.ProofsFloat.RV yt) (C17.ProofsFloat.RV yp) in
+  let fn := n_fn (C17.ProofsFloat.RV yt) (C17.ProofsFloat.RV yp) in
+  let p := (INR tp / INR (tp + fp))%R in let r := (INR tp / INR (tp + fn))%R in
+  let F := ((1 + b * b) * (p * r) / (b * b * p + r))%R in
+  binary (C17.ProofsFloat.RV yt) /\ binary (C17.ProofsFloat.RV yp) /\ (0 < tp)%nat /\ FloatError.ffin beta /\
+  f_beta ROps b (C17.ProofsFloat.RV yt) (C17.ProofsFloat.RV yp) = Some F /\ (0 < F)%R /\
+  ((b = 0 \/ / 2 ^ 480 <= Rabs b)%R ->
+   (Rabs (FloatError.FR f - F) <= ((1 + FloatError.u64) ^ 11 - 1) * F)%R).
+Proof. exact C15.ProofsFloat2.fbeta_float_error. Qed.
+
+(* R^2 = 1 - ss_res / ss_tot.  r2_mean_F / r2_ss_tot_F / r2_ss_res_F are the three intermediate floats of
+   the code (first conjunct); S and T are the exact sums of squares of the real values, T about the
+   COMPUTED mean mu.  Hypotheses: the result and ss_tot are finite (an infinite ss_tot gives the finite
+   result 1), the decidable no-underflow check of the squares (r2_normal_b, evaluate with vm_compute),
+   n + 2 <= 2^50.  Each sum has relative error E = (1+u)^(n+2) - 1; the final subtraction cancels, so the
+   bound on R^2 is absolute: u |R^2| + (1+u) ((3E + 2u) S/T + eta). *)
+Theorem C15_r2_float_error : forall (yt yp : list PrimFloat.float) (r : PrimFloat.float),
+  r2 FOps yt yp = Some r -> FloatError.ffin r -> FloatError.ffin (C15.ProofsFloat2.r2_ss_tot_F yt) ->
+  C15.ProofsFloat2.r2_normal_b yt yp = true -> (Z.of_nat (length yt) + 2 <= 2 ^ 50)%Z ->
+  let n := length yt in
+  let mu := FloatError.FR (C15.ProofsFloat2.r2_mean_F yt) in
+  let S := C17.Spec.sigma n (fun i => ((C17.Spec.comp (C17.ProofsFloat.RV yt) i - C17.Spec.comp (C17.ProofsFloat.RV yp) i) *
+                                       (C17.Spec.comp (C17.ProofsFloat.RV yt) i - C17.Spec.comp (C17.ProofsFloat.RV yp) i))%R) in
+  let T := C17.Spec.sigma n (fun i => ((C17.Spec.comp (C17.ProofsFloat.RV yt) i - mu) *
+                                       (C17.Spec.comp (C17.ProofsFloat.RV yt) i - mu))%R) in
+  let E := ((1 + FloatError.u64) ^ (n + 2) - 1)%R in
+  r = (1 - C15.ProofsFloat2.r2_ss_res_F yt yp / C15.ProofsFloat2.r2_ss_tot_F yt)%float /\
+  (0 <= S)%R /\ (0 < T)%R /\
+  (Rabs (FloatError.FR (C15.ProofsFloat2.r2_ss_res_F yt yp) - S) <= E * S)%R /\
+  (Rabs (FloatError.FR (C15.ProofsFloat2.r2_ss_tot_F yt) - T) <= E * T)%R /\
+  (Rabs (FloatError.FR r - (1 - S / T)) <=
+     FloatError.u64 * Rabs (1 - S / T) + (1 + FloatError.u64) * ((3 * E + 2 * FloatError.u64) * (S / T) + FloatError.eta64))%R.
+Proof. exact C15.ProofsFloat2.r2_float_error. Qed.
+
+(* the computed mean of R^2 (recursive sum, one division), and the effect of using ANY mu in place of the
+   exact mean on the total sum of squares: T(mu) = T(mean) + n (mu - mean)^2 *)
+Theorem C15_r2_mean_float_error : forall (yt : list PrimFloat.float),
+  FloatError.ffin (C15.ProofsFloat2.r2_mean_F yt) -> (Z.of_nat (length yt) < 2 ^ 53)%Z ->
+  let n := length yt in
+  let ybar := (C17.Spec.sigma n (C17.Spec.comp (C17.ProofsFloat.RV yt)) / INR n)%R in
+  let A := (C17.Spec.sigma n (fun i => Rabs (C17.Spec.comp (C17.ProofsFloat.RV yt) i)) / INR n)%R in
+  (0 < n)%nat /\
+  (Rabs (FloatError.FR (C15.ProofsFloat2.r2_mean_F yt) - ybar) <= ((1 + FloatError.u64) ^ n - 1) * A + FloatError.eta64)%R.
+Proof. exact C15.ProofsFloat2.r2_mean_float_error. Qed.
+
+Theorem C15_r2_total_sum_of_squares_shift : forall (x : list R) (mu : R), (0 < length x)%nat ->
+  let n := length x in let ybar := (C17.Spec.sigma n (C17.Spec.comp x) / INR n)%R in
+  C17.Spec.sigma n (fun i => ((C17.Spec.comp x i - mu) * (C17.Spec.comp x i - mu))%R) =
+  (C17.Spec.sigma n (fun i => ((C17.Spec.comp x i - ybar) * (C17.Spec.comp x i - ybar))%R) +
+   INR n * ((mu - ybar) * (mu - ybar)))%R.
+Proof. exact C15.ProofsFloat2.ss_tot_shift. Qed.
+
+(* the hypotheses are satisfiable; the excluded cases are what the code really returns *)
+Example C15_count_metrics_float_instance :
+  let yt := [1; 0; 1; 1; 0; 1]%float in let yp := [1; 1; 1; 0; 0; 1]%float in
+  (exists a, accuracy FOps yt yp = Some a /\ FloatError.ffin a) /\
+  (exists p, precision FOps yt yp = Some p /\ FloatError.ffin p) /\
+  (exists r, recall FOps yt yp = Some r /\ FloatError.ffin r) /\
+  (exists f, f_beta FOps 1%float yt yp = Some f /\ FloatError.ffin f) /\
+  (Z.of_nat (length yt) < 2 ^ 53)%Z /\ (/ 2 ^ 480 <= Rabs (FloatError.FR 1%float))%R.
+Proof.
+  cbv zeta. repeat split; try (eexists; split; vm_compute; reflexivity).
+  rewrite C15.ProofsFloat2.FR_one, Rabs_R1, <- Rinv_1 at 1.
+  apply Rinv_le_contravar; [lra | apply pow_R1_Rle; lra].
+Qed.
+(* TP = 0 / no predicted positive: NaN, not a finite result *)
+Example C15_count_metrics_float_nan :
+  precision FOps [1; 0]%float [0; 0]%float = Some nan /\
+  f_beta FOps 1%float [1; 0]%float [0; 1]%float = Some nan /\ PrimFloat.is_finite nan = false.
+Proof. repeat split; vm_compute; reflexivity. Qed.
+Example C15_r2_float_instance :
+  let yt := [3; -0.5; 2; 7]%float in let yp := [2.5; 0; 2; 8]%float in
+  (exists r, r2 FOps yt yp = Some r /\ FloatError.ffin r) /\
+  FloatError.ffin (C15.ProofsFloat2.r2_ss_tot_F yt) /\ C15.ProofsFloat2.r2_normal_b yt yp = true /\
+  (Z.of_nat (length yt) + 2 <= 2 ^ 50)%Z /\ FloatError.ffin (C15.ProofsFloat2.r2_mean_F yt).
+Proof. cbv zeta. repeat split; try (eexists; split; vm_compute; reflexivity); vm_compute; try reflexivity; discriminate. Qed.
+
+(* ------------------------------------------------------------------------------------------
+   ROC-AUC in binary64 (C15/ProofsFloat3.v): for n^2 < 2^51 (n < 2^25.5) every operation before the final
+   division is EXACT — the class counters (floats incremented by 1.0) are integers, the ranks integers or
+   mid-ranks (half-integers), the rank sum, pos(pos+1)/2 and their difference half-integers below 2^52,
+   pos*neg an integer — and the float comparisons of finite scores and of the labels agree with the real
+   ones.  So the result is the correctly rounded value of the real-number model on the real values of
+   the inputs, for EVERY index vector (first theorem); with the rank-sum theorem's hypotheses on idx it
+   is the correctly rounded pairwise AUC (second).  A finite result means both classes are present.
+   ------------------------------------------------------------------------------------------ *)
+From SC Require C15.ProofsFloat3.
+
+Theorem C15_auc_float_exact : forall (yt scores : list PrimFloat.float) (idx : list nat) (a : PrimFloat.float),
+  auc_with FOps yt scores idx = Some a -> FloatError.ffin a -> Forall FloatError.ffin scores ->
+  (Z.of_nat (length yt) * Z.of_nat (length yt) < 2 ^ 51)%Z ->
+  length scores = length yt /\ length idx = length yt /\ (0 < length yt)%nat /\
+  exists q, auc_with ROps (C17.ProofsFloat.RV yt) (C17.ProofsFloat.RV scores) idx = Some q /\
+            binary (C17.ProofsFloat.RV yt) /\
+            FloatError.FR a = FloatError.rnd64 q /\ (Rabs (FloatError.FR a - q) <= FloatError.u64 * Rabs q)%R.
+Proof. exact C15.ProofsFloat3.auc_float_exact. Qed.
+
+Theorem C15_auc_float_correctly_rounded : forall (yt scores : list PrimFloat.float) (idx : list nat) (a : PrimFloat.float),
+  auc_with FOps yt scores idx = Some a -> FloatError.ffin a -> Forall FloatError.ffin scores ->
+  (Z.of_nat (length yt) * Z.of_nat (length yt) < 2 ^ 51)%Z ->
+  Permutation idx (seq 0 (length yt)) -> Sorted Rle (map (at_ (C17.ProofsFloat.RV scores)) idx) ->
+  let A := auc_pairwise (C17.ProofsFloat.RV yt) (C17.ProofsFloat.RV scores) in
+  binary (C17.ProofsFloat.RV yt) /\
+  auc_with ROps (C17.ProofsFloat.RV yt) (C17.ProofsFloat.RV scores) idx = Some A /\
+  FloatError.FR a = FloatError.rnd64 A /\ (Rabs (FloatError.FR a - A) <= FloatError.u64 * Rabs A)%R.
+Proof. exact C15.ProofsFloat3.auc_float_pairwise. Qed.
+
+Example C15_auc_float_instance :
+  let yt := [1; 0; 1; 0]%float in let scores := [1; 1; 2; 0]%float in let idx := [3; 1; 0; 2]%nat in
+  (exists a, auc_with FOps yt scores idx = Some a /\ FloatError.ffin a) /\
+  Forall FloatError.ffin scores /\ (Z.of_nat (length yt) * Z.of_nat (length yt) < 2 ^ 51)%Z /\
+  Permutation idx (seq 0 (length yt)) /\ Sorted Rle (map (at_ (C17.ProofsFloat.RV scores)) idx).
+Proof.
+  cbv zeta. split; [eexists; split; vm_compute; reflexivity|].
+  split; [repeat constructor|]. split; [vm_compute; reflexivity|]. split.
+  - apply NoDup_Permutation.
+    + repeat constructor; cbn; intuition lia.
+    + apply seq_NoDup.
+    + intros x. cbn. intuition.
+  - unfold at_, C17.ProofsFloat.RV. cbn [map nth].
+    change 2%float with (FloatUtil.float_of_Z 2). change 1%float with (FloatUtil.float_of_Z 1). change 0%float with (FloatUtil.float_of_Z 0).
+    rewrite !C17.ProofsFloat.FR_int by lia. repeat constructor; lra.
+Qed.
+(* a single class: 0/0, NaN *)
+Example C15_auc_float_single_class :
+  auc_with FOps [1; 1]%float [0.5; 0.25]%float [1; 0]%nat = Some nan.
+Proof. vm_compute. reflexivity. Qed.
+
+(* with the model's own (insertion) sort: on finite scores the float sort IS the real-number sort, so the
+   statement is unconditional in the index vector *)
+Theorem C15_auc_float_correctly_rounded_model_sort : forall (yt scores : list PrimFloat.float) (a : PrimFloat.float),
+  auc FOps yt scores = Some a -> FloatError.ffin a -> Forall FloatError.ffin scores ->
+  (Z.of_nat (length yt) * Z.of_nat (length yt) < 2 ^ 51)%Z ->
+  let A := auc_pairwise (C17.ProofsFloat.RV yt) (C17.ProofsFloat.RV scores) in
+  binary (C17.ProofsFloat.RV yt) /\ auc ROps (C17.ProofsFloat.RV yt) (C17.ProofsFloat.RV scores) = Some A /\
+  FloatError.FR a = FloatError.rnd64 A /\ (Rabs (FloatError.FR a - A) <= FloatError.u64 * Rabs A)%R.
+Proof. exact C15.ProofsFloat3.auc_float_model_sort. Qed.
+
+Example C15_auc_float_model_sort_instance :
+  exists a, auc FOps [1; 0; 1; 0; 1]%float [0.75; 0.5; 0.5; 0.125; 2]%float = Some a /\ FloatError.ffin a.
+Proof. eexists. split; vm_compute; reflexivity. Qed.
+
+(* R^2 against the real-number model (C15/ProofsFloat4.v): the same hypotheses as C15_r2_float_error; the
+   model over the reals gives 1 - S/T0 with T0 about the exact mean, the code's total sum of squares is
+   about the computed mean, T = T0 + n dm^2 with dm = computed mean - exact mean bounded below *)
+From SC Require C15.ProofsFloat4.
+Theorem C15_r2_float_error_against_real_model : forall (yt yp : list PrimFloat.float) (r : PrimFloat.float),
+  r2 FOps yt yp = Some r -> FloatError.ffin r -> FloatError.ffin (C15.ProofsFloat2.r2_ss_tot_F yt) ->
+  C15.ProofsFloat2.r2_normal_b yt yp = true -> (Z.of_nat (length yt) + 2 <= 2 ^ 50)%Z ->
+  let n := length yt in
+  let y := C17.Spec.comp (C17.ProofsFloat.RV yt) in let f := C17.Spec.comp (C17.ProofsFloat.RV yp) in
+  let ybar := (C17.Spec.sigma n y / INR n)%R in
+  let A := (C17.Spec.sigma n (fun i => Rabs (y i)) / INR n)%R in
+  let dm := (FloatError.FR (C15.ProofsFloat2.r2_mean_F yt) - ybar)%R in
+  let S := C17.Spec.sigma n (fun i => ((y i - f i) * (y i - f i))%R) in
+  let T0 := C17.Spec.sigma n (fun i => ((y i - ybar) * (y i - ybar))%R) in
+  let T := (T0 + INR n * (dm * dm))%R in
+  let E := ((1 + FloatError.u64) ^ (n + 2) - 1)%R in
+  (0 < n)%nat /\ r2 ROps (C17.ProofsFloat.RV yt) (C17.ProofsFloat.RV yp) = Some (1 - S / T0)%R /\
+  (Rabs dm <= ((1 + FloatError.u64) ^ n - 1) * A + FloatError.eta64)%R /\ (0 <= S)%R /\ (0 <= T0)%R /\ (0 < T)%R /\
+  (Rabs (FloatError.FR r - (1 - S / T)) <=
+     FloatError.u64 * Rabs (1 - S / T) + (1 + FloatError.u64) * ((3 * E + 2 * FloatError.u64) * (S / T) + FloatError.eta64))%R.
+Proof. exact C15.ProofsFloat4.r2_float_error_full. Qed.
